@@ -80,8 +80,7 @@ Fixpoint csem (s : stmt) (ls : list N) {struct s} : comps :=
              (cunion (if may_true c then csem a [] else cempty) (if may_false c then csem b [] else cempty))
   | SWhile _ c b => sem_loop c CTrue ls (csem b [])
   | SDoWhile _ b c => sem_loop CTrue c ls (csem b [])
-  | SFor _ (Some c) b => sem_loop c CTrue ls (csem b [])
-  | SFor _ None b => sem_loop CTrue CTrue ls (csem b [])
+  | SFor _ i c u b => cunion (t_if (oe_throws i)) (sem_loop (for_pre c) (upd_post u) ls (csem b []))
   | SForIn _ b | SForOf _ b | SForHead _ _ _ _ _ b => sem_loop opaque CTrue ls (csem b [])
   | SSwitch _ cs =>
       let ca := snd (csem_c cs) in
@@ -119,8 +118,9 @@ Fixpoint reach (s : stmt) : list N :=
   | SForHead _ _ _ _ hb b => reach_l hb ++ reach b
   | SIf _ c a => if may_true c then reach a else []
   | SIfElse _ c a b => (if may_true c then reach a else []) ++ (if may_false c then reach b else [])
-  | SWhile _ c b | SFor _ (Some c) b => if may_true c then reach b else []
-  | SDoWhile _ b _ | SFor _ None b | SForIn _ b | SForOf _ b | SLabel _ _ b => reach b
+  | SWhile _ c b => if may_true c then reach b else []
+  | SFor _ _ c _ b => if may_true (for_pre c) then reach b else []
+  | SDoWhile _ b _ | SForIn _ b | SForOf _ b | SLabel _ _ b => reach b
   | SSwitch _ cs => reach_c cs
   | STry _ _ blk h hb f fb =>
       let bc := csem_l blk in
